@@ -191,6 +191,220 @@ LEAVES = {"solve": ["Amat", "B"], "symeig": ["Amat"], "rootfinder": ["W", "c"], 
           "solve_ivp": ["W", "c"], "quad": ["a"], "mcquad": ["a"], "interp1d": ["ys"], "squad": ["ys"]}
 
 
+# ----------------------------------------------------------------------------- who runs where (BckDispatch.tla)
+class Phase(object):
+    def __init__(self):
+        self.now = "fwd"
+        self.calls = {"A": {"fwd": 0, "bwd": 0}, "B": {"fwd": 0, "bwd": 0}}
+        self.fevals = {"fwd": 0, "bwd": 0}
+        self.kwB = []
+
+    def hit(self, who, kw=None):
+        self.calls[who][self.now] += 1
+        if who == "B" and kw is not None:
+            self.kwB.append(sorted(kw.keys()))
+
+
+def wrw_call(fname, method, fx, fwd, bck, ph):
+    """same problems as call(), with the user's function counting its evaluations per phase"""
+    kw = dict(fwd)
+    if bck is not None:
+        kw["bck_options"] = bck
+
+    def cnt(fn):
+        def g(*a):
+            ph.fevals[ph.now] += 1
+            return fn(*a)
+        return g
+    if fname == "solve":
+        return xitorch.linalg.solve(LinearOperator.m(fx["Amat"], is_hermitian=False), fx["B"], method=method, **kw)
+    if fname == "symeig":
+        ev, evec = xitorch.linalg.symeig(LinearOperator.m((fx["Amat"] + fx["Amat"].T) * 0.5, is_hermitian=True), neig=2, mode="lowest", method=method, **kw)
+        return torch.cat([ev, (evec ** 2).reshape(-1)])
+    if fname == "rootfinder":
+        return xitorch.optimize.rootfinder(cnt(lambda y, W, c: y - c - 0.3 * torch.tanh(W @ y)), torch.zeros(3, dtype=DT), params=(fx["W"], fx["c"]), method=method, **kw)
+    if fname == "equilibrium":
+        return xitorch.optimize.equilibrium(cnt(lambda y, W, c: c + 0.3 * torch.tanh(W @ y)), torch.zeros(3, dtype=DT), params=(fx["W"], fx["c"]), method=method, **kw)
+    if fname == "minimize":
+        return xitorch.optimize.minimize(cnt(lambda y, W, c: 0.5 * ((y - c) ** 2).sum() + 0.3 * torch.log(torch.cosh(W @ y)).sum()), torch.zeros(3, dtype=DT),
+                                         params=(fx["W"], fx["c"]), method=method, **kw)
+    if fname == "solve_ivp":
+        ts = torch.linspace(0.0, 0.5, 5, dtype=DT)
+        return xitorch.integrate.solve_ivp(cnt(lambda t, y, W, c: -y + 0.3 * torch.tanh(W @ y) + c), ts, torch.full((3,), 0.2, dtype=DT),
+                                           params=(fx["W"], fx["c"]), method=method, **kw)
+    if fname == "quad":
+        return xitorch.integrate.quad(cnt(lambda x, a: torch.sin(a * x) + a ** 2 * x), torch.tensor(0.1, dtype=DT), torch.tensor(0.8, dtype=DT),
+                                      params=(fx["a"],), method=method, **kw)
+    raise ValueError(fname)
+
+
+WRW_BUILTIN = {"solve": ("cg", {"rtol": 1e-12, "atol": 1e-14, "max_niter": 60}), "symeig": ("custom_exacteig", {}),
+               "rootfinder": ("broyden1", {"f_tol": 1e-13, "x_tol": 1e-13}), "equilibrium": ("broyden1", {"f_tol": 1e-13, "x_tol": 1e-13}),
+               "minimize": ("broyden1", {"f_tol": 1e-13, "x_tol": 1e-13}), "solve_ivp": ("rk4", {}), "quad": ("leggauss", {"n": 8})}
+WRW_BCK_BUILTIN = {"solve": {"method": "bicgstab", "rtol": 1e-12, "atol": 1e-14}, "symeig": {"method": "bicgstab", "rtol": 1e-12, "atol": 1e-14},
+                   "rootfinder": {"method": "bicgstab", "rtol": 1e-12, "atol": 1e-14}, "equilibrium": {"method": "bicgstab", "rtol": 1e-12, "atol": 1e-14},
+                   "minimize": {"method": "bicgstab", "rtol": 1e-12, "atol": 1e-14}, "solve_ivp": {"method": "euler"}, "quad": {"method": "leggauss", "n": 3}}
+
+
+def wrw_methods(fname, kind, ph, stored):
+    """forward callables: 'wrapper' uses the function / operator it is given, 'oracle' returns the solution without an autograd graph of its own"""
+    from xitorch._impls.linalg.solve import cg, exactsolve
+    from xitorch._impls.linalg.symeig import exacteig
+    from xitorch._impls.integrate.ivp.explicit_rk import rk4_ivp
+    from xitorch._impls.integrate.fixed_quad import leggauss
+    if fname == "solve":
+        if kind == "wrapper":
+            def m(A, B, E, M, **kw):
+                ph.hit("A")
+                return cg(A, B, E, M, **kw)
+        else:
+            def m(A, B, E, M, **kw):
+                ph.hit("A")
+                return torch.linalg.solve(A.fullmatrix(), B)
+        return m
+    if fname == "symeig":
+        if kind == "wrapper":
+            def m(A, neig, mode, M, **kw):
+                ph.hit("A")
+                return exacteig(A, neig, mode, M)
+        else:
+            def m(A, neig, mode, M, **kw):
+                ph.hit("A")
+                ev, evec = torch.linalg.eigh(A.fullmatrix())
+                return ev[:neig], evec[:, :neig]
+        return m
+    if fname in ("rootfinder", "equilibrium", "minimize"):
+        if kind == "wrapper":
+            def m(fcn, y0, params, **kw):
+                ph.hit("A")
+                y = y0
+                for _ in range(300):
+                    if fname in ("rootfinder", "equilibrium"):
+                        y = y - fcn(y, *params)
+                    else:
+                        out = fcn(y, *params)
+                        y = y - 0.5 * (out[1] if isinstance(out, tuple) else out)
+                return y
+        else:
+            def m(fcn, y0, params, **kw):
+                ph.hit("A")
+                return stored.clone()
+        return m
+    if fname == "solve_ivp":
+        if kind == "wrapper":
+            def m(fcn, ts, y0, params, **kw):
+                ph.hit("A")
+                return rk4_ivp(fcn, ts, y0, params)
+        else:
+            def m(fcn, ts, y0, params, **kw):
+                ph.hit("A")
+                return stored.clone()
+        return m
+    if fname == "quad":
+        if kind == "wrapper":
+            def m(fcn, xl, xu, params, **kw):
+                ph.hit("A")
+                return leggauss(fcn, xl, xu, params, **kw)
+        else:
+            def m(fcn, xl, xu, params, **kw):
+                ph.hit("A")
+                return stored.clone()
+        return m
+    raise ValueError(fname)
+
+
+def wrw_bck_callable(fname, ph):
+    from xitorch._impls.linalg.solve import exactsolve
+    from xitorch._impls.integrate.ivp.explicit_rk import rk4_ivp
+    from xitorch._impls.integrate.fixed_quad import leggauss
+    if fname == "solve_ivp":
+        def bm(fcn, ts, y0, params, **kw):
+            ph.hit("B", kw)
+            return rk4_ivp(fcn, ts, y0, params)
+        return {"method": bm, "bcktag": 1}
+    if fname == "quad":
+        def bm(fcn, xl, xu, params, **kw):
+            ph.hit("B", kw)
+            return leggauss(fcn, xl, xu, params, n=8)
+        return {"method": bm, "bcktag": 1}
+
+    def bm(A, B, E, M, **kw):
+        ph.hit("B", kw)
+        return exactsolve(A, B, E, M)
+    return {"method": bm, "bcktag": 1}
+
+
+def wrw_run(fname, fk, bk, fx, stored):
+    ph = Phase()
+    nm, opts = WRW_BUILTIN[fname]
+    method = nm if fk == "builtin" else wrw_methods(fname, fk, ph, stored)
+    fwd = dict(opts) if fk == "builtin" or (fk == "wrapper" and fname in ("solve", "quad")) else {}
+    bck = None if bk == "unset" else (dict(WRW_BCK_BUILTIN[fname]) if bk == "builtin" else wrw_bck_callable(fname, ph))
+    out = wrw_call(fname, method, fx, fwd, bck, ph)
+    ph.now = "bwd"
+    g1, g2 = grads(out, [fx[k] for k in LEAVES[fname]])
+    return out.detach(), g1, g2, ph
+
+
+def who_runs_where(ctx, fx):
+    base = dict(BckWins=True, NoForwardLeak=True)
+    invs = ["CallersBackwardMethodIsUsed", "BackwardMethodNotInForward", "ForwardCallableAlwaysProducesSolution", "OracleNeverDifferentiates"]
+    t, cf = tlcmod.gen_mc(ctx.work, "BckDispatch", "MC_BckDispatch", base, invariants=invs)
+    dot = os.path.join(ctx.work, "bd.dot")
+    ctx.model_check(t, cf, workers=4, dump_dot=dot, label="who runs where", timeout=300)
+    nodes, _, _ = tlcmod.parse_dot(dot)
+    os.remove(dot)
+    for sw, inv in (("BckWins", "CallersBackwardMethodIsUsed"), ("NoForwardLeak", "BackwardMethodNotInForward")):
+        c = dict(base)
+        c[sw] = False
+        t2, cf2 = tlcmod.gen_mc(ctx.work, "BckDispatch", "MC_BckDispatch_dev_" + sw, c, invariants=invs)
+        ctx.expect_violation(t2, cf2, inv=inv, label="deviation " + sw, workers=4, timeout=300)
+    n = 0
+    refs = {}
+    stored = {}
+    with warnings.catch_warnings():
+        warnings.simplefilter("ignore")
+        for st in sorted(nodes.values(), key=lambda s_: (s_["f"], s_["bk"], {"builtin": 0, "wrapper": 1, "oracle": 2}[s_["fk"]])):
+            fname, fk, bk, who = st["f"], st["fk"], st["bk"], st["who"]
+            n += 1
+            ctx.case(key=("who-runs-where", fname, fk, bk))
+            if fname not in stored:
+                with torch.no_grad():
+                    stored[fname] = wrw_call(fname, WRW_BUILTIN[fname][0], fx, dict(WRW_BUILTIN[fname][1]), None, Phase()).detach() if fname in ("rootfinder", "equilibrium", "minimize", "solve_ivp", "quad") else None
+            why = None
+            try:
+                out, g1, g2, ph = wrw_run(fname, fk, bk, fx, stored[fname])
+                obs = {"fwdCallableInFwd": ph.calls["A"]["fwd"] > 0, "fwdCallableInBwd": ph.calls["A"]["bwd"] > 0,
+                       "bckCallableInFwd": ph.calls["B"]["fwd"] > 0, "bckCallableInBwd": ph.calls["B"]["bwd"] > 0}
+                for k_, v_ in obs.items():
+                    if bool(who[k_]) != v_:
+                        why = "%s: observed %s, specification %s (forward callable calls %s, backward callable calls %s)" % (k_, v_, bool(who[k_]), ph.calls["A"], ph.calls["B"])
+                        break
+                if why is None and bk == "callable" and any("bcktag" not in kk for kk in ph.kwB):
+                    why = "the caller's backward options were not delivered to the backward method (saw %s)" % ph.kwB[:2]
+                if why is None:
+                    if (fname, bk) not in refs:
+                        refs[(fname, bk)] = (out, g1, g2, ph.fevals["bwd"], fk)
+                    ro, r1, r2, rfe, rfk = refs[(fname, bk)]
+                    if not torch.allclose(out, ro, atol=1e-7, rtol=1e-7):
+                        why = "value differs from the one with a %s forward method by %.2e" % (rfk, float((out - ro).abs().max()))
+                    elif not torch.allclose(g1, r1, atol=1e-6, rtol=1e-6):
+                        why = "first-order gradient differs from the one with a %s forward method by %.2e" % (rfk, float((g1 - r1).abs().max()))
+                    elif not torch.allclose(g2, r2, atol=1e-5, rtol=1e-5):
+                        why = "second-order gradient differs from the one with a %s forward method by %.2e" % (rfk, float((g2 - r2).abs().max()))
+                # a built-in backward method different from the forward one must actually run: fewer function evaluations in backward
+                if why is None and bk == "builtin" and fname in ("solve_ivp", "quad") and fk == "builtin":
+                    unset = refs.get((fname, "unset"))
+                    if unset is not None and not (ph.fevals["bwd"] < unset[3]):
+                        why = "bck_options %s had no effect on the backward pass: %d function evaluations, %d without bck_options" % (
+                            {k_: v_ for k_, v_ in WRW_BCK_BUILTIN[fname].items()}, ph.fevals["bwd"], unset[3])
+            except Exception as e:
+                why = "raised %s: %s" % (type(e).__name__, str(e)[:160])
+            if why:
+                ctx.violation("dispatch/%s/who-runs-where" % fname, "%s with a %s forward method and %s backward method: %s" % (fname, fk, bk, why), {"f": fname, "fk": fk, "bk": bk})
+    return n
+
+
 def run(ctx):
     thorough = ctx.tier == "thorough"
     allf = RawTla("[g \\in Functionals |-> TRUE]")
@@ -308,8 +522,9 @@ def run(ctx):
             ctx.violation("dispatch/%s/bck-method-ignored" % f, "%s: the method given in bck_options was not used in the backward pass" % f, {"f": f})
         elif "tag" not in pr.calls[0]["kw"]:
             ctx.violation("dispatch/%s/bck-options-not-delivered" % f, "%s: backward options were not delivered to the backward method (saw %s)" % (f, pr.calls[0]["kw"]), {"f": f})
-    ctx.replayed = len(nodes)
-    ctx.notes.update(rows=len(nodes), executed=nrows)
+    nwrw = who_runs_where(ctx, fx)
+    ctx.replayed = len(nodes) + nwrw
+    ctx.notes.update(rows=len(nodes), executed=nrows, who_runs_where_rows=nwrw)
     ctx.exhaustive = True
     ctx.assumptions += [
         "method tables and defaults are those of the documentation, written into Dispatch.tla (not read from the code)",
